@@ -25,9 +25,14 @@ type vfTreeOp struct {
 	Th   uint64 `json:"th,omitempty"`
 	N    int    `json:"n,omitempty"` // bulk: number of keys (start K, stride C, value V)
 	Desc bool   `json:"desc,omitempty"`
+	Sq   int    `json:"sq,omitempty"` // squeeze mode: pages that still fit before the buffer must be reallocated
 }
 
 type vfTreeCase struct {
+	// Squeeze: before every Set the in-memory buffer is trimmed to exactly its used size, so that the
+	// next page allocation has to grow (reallocate) the backing buffer - "growth of the backing
+	// buffer" at every possible point instead of only at 3 MiB, 6 MiB, ...
+	Squeeze    bool       `json:"squeeze,omitempty"`
 	MaxKeys    int        `json:"max_keys"`
 	Persistent bool       `json:"persistent"`
 	Ops        []vfTreeOp `json:"ops"`
@@ -50,6 +55,8 @@ type vfTreeRun struct {
 	reuseAfterOpen bool
 	sawReopen      bool
 	grew           bool
+	squeezed       int
+	grewOnAlloc    int  // Sets that allocated a page right after the buffer was trimmed (reallocation during the Set)
 	hitMaxKeyDel   bool // a DeleteBelow had to delete the largest key of some leaf
 	executed       int
 }
@@ -90,6 +97,18 @@ func (r *vfTreeRun) open() error {
 		return nil
 	}
 	r.tree = NewTree("vf")
+	if r.c.Squeeze {
+		// start from a backing buffer that holds just the root page, so that page allocations have
+		// to grow the buffer from the first split on (instead of only after 1 MiB of pages)
+		t := r.tree
+		_ = t.buffer.Release()
+		t.buffer = NewBuffer(2*pageSize+64, "vf")
+		t.buffer.AllocateOffset(2 * pageSize)
+		t.data = t.buffer.Bytes()
+		t.stats = TreeStats{}
+		t.nextPage, t.freePage = 1, 0
+		t.initRootNode()
+	}
 	return nil
 }
 
@@ -291,6 +310,21 @@ func (r *vfTreeRun) leafMaxKeyBelow(ts uint64) bool {
 	return hit
 }
 
+func (r *vfTreeRun) squeeze(pages int) {
+	b := r.tree.buffer
+	if !r.c.Squeeze || r.c.Persistent || b.bufType != UseCalloc {
+		return
+	}
+	// leave room for exactly `pages` more pages: the allocation after those reallocates the buffer
+	end := int(b.offset) + pages*pageSize
+	if end > cap(b.buf) {
+		end = cap(b.buf)
+	}
+	b.buf = b.buf[:end:end]
+	b.curSz = end
+	r.squeezed++
+}
+
 func (r *vfTreeRun) apply(op *vfTreeOp) (err error) {
 	defer func() {
 		if p := recover(); p != nil {
@@ -301,7 +335,12 @@ func (r *vfTreeRun) apply(op *vfTreeOp) (err error) {
 	switch op.Kind {
 	case "set":
 		freeBefore := t.stats.NumPagesFree
+		r.squeeze(op.Sq)
+		pagesBefore := t.nextPage
 		t.Set(op.K, op.V)
+		if r.c.Squeeze && int(t.nextPage-pagesBefore) > op.Sq {
+			r.grewOnAlloc++
+		}
 		r.model[op.K] = op.V
 		r.everUsed[op.K] = struct{}{}
 		if t.stats.NumPagesFree < freeBefore {
@@ -378,6 +417,9 @@ func (r *vfTreeRun) apply(op *vfTreeOp) (err error) {
 		for i := 0; i < op.N; i++ {
 			if k == 0 || k >= vfMaxLegalKey {
 				break
+			}
+			if op.N <= 64 {
+				r.squeeze(op.Sq)
 			}
 			t.Set(k, op.V)
 			r.model[k] = op.V
@@ -527,6 +569,13 @@ func vfGenTreeVal(t *rapid.T) uint64 {
 	}
 }
 
+func vfGenSq(t *rapid.T, r *vfTreeRun) int {
+	if !r.c.Squeeze {
+		return 0
+	}
+	return rapid.IntRange(0, 3).Draw(t, "sq")
+}
+
 func vfGenTreeOp(t *rapid.T, r *vfTreeRun, allowBulk bool) *vfTreeOp {
 	w := rapid.IntRange(0, 99).Draw(t, "op")
 	switch {
@@ -536,9 +585,9 @@ func vfGenTreeOp(t *rapid.T, r *vfTreeRun, allowBulk bool) *vfTreeOp {
 			n := rapid.IntRange(3, 40).Draw(t, "runlen")
 			start := vfGenTreeKey(t, r)
 			stride := rapid.SampledFrom([]uint64{1, 1, 2, 7, 1 << 32}).Draw(t, "stride")
-			return &vfTreeOp{Kind: "bulk", K: start, C: stride, N: n, V: vfGenTreeVal(t), Desc: rapid.Bool().Draw(t, "desc")}
+			return &vfTreeOp{Kind: "bulk", K: start, C: stride, N: n, V: vfGenTreeVal(t), Desc: rapid.Bool().Draw(t, "desc"), Sq: vfGenSq(t, r)}
 		}
-		return &vfTreeOp{Kind: "set", K: vfGenTreeKey(t, r), V: vfGenTreeVal(t)}
+		return &vfTreeOp{Kind: "set", K: vfGenTreeKey(t, r), V: vfGenTreeVal(t), Sq: vfGenSq(t, r)}
 	case w < 68:
 		return &vfTreeOp{Kind: "get", K: vfGenTreeKey(t, r)}
 	case w < 82:
@@ -595,7 +644,7 @@ func vfTreeEvidence(ev *vfEvidence, r *vfTreeRun, c *vfTreeCase) {
 		h.Add(op.K)
 		h.Add(op.V)
 		h.Add(op.C)
-		h.Add(uint64(op.N))
+		h.Add(uint64(op.N*8 + op.Sq))
 	}
 	cl := []string{fmt.Sprintf("maxKeys=%d", c.MaxKeys)}
 	if r.maxLevels >= 3 {
@@ -615,6 +664,9 @@ func vfTreeEvidence(ev *vfEvidence, r *vfTreeRun, c *vfTreeCase) {
 	}
 	if r.grew {
 		cl = append(cl, "buffer-grew")
+	}
+	if r.grewOnAlloc > 0 {
+		cl = append(cl, "buffer-reallocated-during-a-page-allocating-Set")
 	}
 	if r.hitMaxKeyDel {
 		cl = append(cl, "DeleteBelow-hit-a-leafs-largest-key")
@@ -648,6 +700,9 @@ func vfTreeProperty(ev *vfEvidence, persistent bool) func(t *rapid.T) {
 			c.MaxKeys = rapid.SampledFrom([]int{4, 4, 4, 4, 5, 5, 6, 7, 7, 8, 9, 15, 16, 31, 63, 127, 255}).Draw(t, "maxKeys")
 		}
 		nops := rapid.IntRange(1, 90).Draw(t, "nops")
+		if !persistent {
+			c.Squeeze = rapid.IntRange(0, 5).Draw(t, "squeeze") == 0
+		}
 		allowBulk := !persistent && c.MaxKeys <= 7 && rapid.IntRange(0, 39).Draw(t, "growth") == 0
 		bulks := 0
 		r, err := vfRunTreeCase(c, func(r *vfTreeRun) *vfTreeOp {
@@ -699,3 +754,9 @@ func TestVf_C16(t *testing.T) {
 }
 
 func TestVfReplay_C16(t *testing.T) { vfReplayTree(t) }
+
+// Native coverage-guided fuzzing (thorough tier): the fuzzer's bytes drive the same generators.
+func FuzzVf_C10(f *testing.F) {
+	ev := &vfEvidence{id: "C10", classes: map[string]int{}, excluded: map[string]int{}, nontrivial: map[uint64]struct{}{}}
+	f.Fuzz(rapid.MakeFuzz(vfTreeProperty(ev, false)))
+}
